@@ -648,7 +648,7 @@ class TextXVisitor(RRELVisitor):
             rule_params = {}
 
         if root_rule.rule_name.startswith("__asgn") or (
-            isinstance(root_rule, (Match, RuleCrossRef)) and rule_params
+            rule_params and not isinstance(root_rule, Sequence)
         ):
             # If it is assignment node it must be kept because it could be
             # e.g. single assignment in the rule.
